@@ -12,11 +12,12 @@ import (
 // C16 — `fmt --write` never damages the file it rewrites (E12 fsatomic).
 //
 // Decided from the source:
-//   fsatomic.nowrite  no in-place write/truncate/create on a path derived from the input VCL's name
-//   fsatomic.rename   the input path changes only through os.Rename(tmp, path) where tmp is a fresh temp file,
-//                     and the rename is dominated by the success edge of every preceding write to tmp,
-//                     at least one such write exists, and it copies the formatter's result
-//   fsatomic.nilreader every use of (*Formatter).Format's result is dominated by a non-nil test (Format has a nil return)
+//
+//	fsatomic.nowrite  no in-place write/truncate/create on a path derived from the input VCL's name
+//	fsatomic.rename   the input path changes only through os.Rename(tmp, path) where tmp is a fresh temp file,
+//	                  and the rename is dominated by the success edge of every preceding write to tmp,
+//	                  at least one such write exists, and it copies the formatter's result
+//	fsatomic.nilreader every use of (*Formatter).Format's result is dominated by a non-nil test (Format has a nil return)
 func init() {
 	register(&Check{ID: "C16", NeedSSA: true, Run: runC16})
 }
